@@ -32,6 +32,7 @@ CANONICAL = {"t1.jsonl", "t2.jsonl", "t4.jsonl", "apply.jsonl", "turn.jsonl", "h
 # (function qual, callee tails, reason - one line each; frozen from the statement and confirmed by reading)
 SITES: List[Tuple[str, Tuple[str, ...], str]] = [
     (RUN_TURN, ("load_latest_snapshot",), "snapshot boot loading incl. corrupt/foreign files"),
+    (RUN_TURN, ("gel_observe", "gel_tick"), "GEL observe pass and decay tick (incl. garbage edge attrs from a snapshot)"),
     (RUN_TURN, ("gel_merge_candidates", "gel_apply_merge", "gel_split_candidates", "gel_apply_split", "gel_promote_clusters", "gel_apply_promotion"), "GEL maintenance passes"),
     (RUN_TURN, ("_run_reflection_if_enabled",), "reflection compute"),
     (RUN_TURN, ("write_reflection_entries",), "reflection write"),
@@ -421,7 +422,7 @@ def run(ctx) -> None:
                     else:
                         ctx.violation("C20.ESC", key + "/finally", fn.loc(badf) if badf is not None else fn.loc(t), f"the finally clause of the guard can raise at `{src(badf)[:50] if badf is not None else ''}`")
             handlers_seen[id(t)] = (fn, t, why)
-    ctx.floor("C20.ESC", "declared fail-soft call sites", n_sites, 22)
+    ctx.floor("C20.ESC", "declared fail-soft call sites", n_sites, 24)
     # NEUTRAL + CONT per distinct guarding try
     for fn, t, why in handlers_seen.values():
         for h in t.handlers:
